@@ -34,7 +34,8 @@ for L in range(1, 10):
     def mk(L=L):
         g = 'SO3' if L > 5 else 'SE3'
         @obligation(f'C12.cumprod.L{L}', functions=[f'{BOPS}:cumops_', f'{BOPS}:cumprod', f'{BOPS}:cumprod_', f'{BOPS}:cumops',
-                                                    f'{LT}:LieTensor.cumprod', f'{LT}:LieType.cumprod', f'{LT}:LieTensor.cumprod_'], max_paths=4, timeout=300)
+                                                    f'{LT}:LieTensor.cumprod', f'{LT}:LieType.cumprod', f'{LT}:LieTensor.cumprod_'], max_paths=4, timeout=300,
+                    thorough_only=(L == 9))          # L = 9 alone costs 80 s: thorough tier
         def ob(env):
             op = env.load(OPS); pp = env.load('pypose'); T = env.T
             items = [group_elem(env, g, f'X{i}') for i in range(L)]
@@ -48,6 +49,8 @@ for L in range(1, 10):
                 env.eq(f'{tag}: cumprod is the ordered fold at every position', raw(Y), ref)
                 env.eq(f'{tag}: out-of-place variant leaves the input untouched', raw(X), before)
                 env.holds(f'{tag}: result keeps the ltype', Y.ltype is ltype(pp, g))
+                raw(Y).mul_(0)                      # the caller goes on to update the result in place ...
+                env.eq(f'{tag}: ... which must not reach the input (the out-of-place result owns its storage)', raw(X), before)
                 Z = lie(pp, g, data.clone())
                 R_ = Z.cumprod_(dim=0, left=left)
                 env.holds(f'{tag}: in-place variant returns the same object', R_ is Z)
@@ -123,6 +126,10 @@ for g_ in ('SE3', 'RxSO3'):
                     Y = f(X)
                     env.eq(f'{tag} {nm}: ordered fold at every position', raw(Y), ref)
                     env.eq(f'{tag} {nm}: input untouched', raw(X), data)
+                    X1 = lie(pp, g, data[0:1].clone()); Y1 = f(X1)          # a scan of length 1
+                    env.eq(f'{tag} {nm}: length 1 returns the item', raw(Y1), data[0:1])
+                    raw(Y1).mul_(0)
+                    env.eq(f'{tag} {nm}: length 1 result owns its storage', raw(X1), data[0:1])
                 for nm, f in spell_.items():
                     X = lie(pp, g, data.clone())
                     Y = f(X)
